@@ -373,7 +373,7 @@ Definition str_ctx (fc : N) (isHTML : bool) (back : N) (quote : N) (json : bool)
   (st : mst) (c : N) : res mst :=
   let l := m_l st in let p := m_p st in
   if c =? 92 then
-    let* esc := (p + 1 <? len l) &&& idx_is l (p + 1) quote in
+    let* esc := (p + 1 <? len l) &&& (let* x := idx l (p + 1) in Ok ((x =? quote) || (x =? 92))) in
     if esc then Ok (mset_lp (addcol 1 l) (p + 1) st) else Ok st
   else if c =? quote then Ok (mset_quote 0 (mset_lp (set_ctx back l) p st))
   else if c =? 60 then
